@@ -326,7 +326,8 @@ kfs_harness! {
     #[kani::unwind(48)]
     #[kani::stub(crate::raw_cache::prune, crate::kv_kfs::spec_prune)]
     fn plain_ops_sanity_twin() {
-        plain_write_case(false, kfs::ENV_NONE, false);
+        // the lookup case: same set-up and stubs as every harness of this file, a fraction of the cost
+        plain_get_case(kfs::ENV_NONE, false);
         assert!(false, "KV-SANITY: reachable end of harness");
     }
 }
